@@ -110,7 +110,8 @@ def build_measurement(measurementspec, modifiertypes):
         # we found luminosity, so handle it
         if parameter['name'] == 'lumi':
             lumi = parameter['auxdata'][0]
-            lumierr = parameter['sigmas'][0]
+            # HistFactory stores the relative uncertainty, the JSON the absolute one
+            lumierr = parameter['sigmas'][0] / lumi
 
     # define measurement
     meas = ET.Element(
@@ -196,7 +197,7 @@ def build_modifier(spec, modifierspec, channelname, samplename, sampledata):
             np.divide(
                 modifierspec['data'],
                 sampledata,
-                out=np.zeros_like(sampledata),
+                out=np.zeros_like(sampledata, dtype='float'),
                 where=np.asarray(sampledata) != 0,
                 dtype='float',
             ).tolist(),
